@@ -4,6 +4,8 @@
    code after the fix: commits listed in docs/C05.md. *)
 From Coq Require Import List Ascii String ZArith NArith Bool.
 From YP Require Import Outcome PyStr PyVal Doc PathParser Searches MergeConfig Merge SpecC05 MergeBasics MergeHash.
+(* obligations tying the models' literal tables to the tables regenerated from the source *)
+From YP Require Import GenTables.
 Import ListNotations.
 Open Scope string_scope.
 Open Scope list_scope.
